@@ -1848,11 +1848,11 @@ func ruleDecodersWriteFreshStorage(c *Check, p *Prog, rule string) {
 // its own on the values — a decoder that refuses, say, an empty transaction makes a block the node
 // itself committed unreadable: every later step that loads it fails, on every restart again.
 func ruleDecodersRefuseOnlyTheUnrepresentable(c *Check, p *Prog, rule string) {
-	c.Doc(rule, "GA: in every FromProto of the wire types each error return is behind a nil test on (a part of) the message or behind the failure of a call underneath; no error return on a condition over the values carried (validation belongs to ValidateBasic, which the store's read path does not run).")
+	c.Doc(rule, "GA: in every FromProto and UnmarshalBinary of the wire types each error return is behind a nil test on (a part of) the message or behind the failure of a call underneath; no error return on a condition over the values or bytes carried — an empty byte string is the encoding of a value (a Data without metadata and transactions; the zero Metadata), and validation belongs to ValidateBasic, which the store's read path does not run.")
 	n := 0
 	for _, fn := range p.Funcs {
 		pk := fnPkg(fn)
-		if pk == nil || pk.Pkg.Path() != rootPath+"/types" || fn.Blocks == nil || fn.Signature.Recv() == nil || fn.Name() != "FromProto" || len(fn.Params) < 2 {
+		if pk == nil || pk.Pkg.Path() != rootPath+"/types" || fn.Blocks == nil || fn.Signature.Recv() == nil || (fn.Name() != "FromProto" && fn.Name() != "UnmarshalBinary") || len(fn.Params) < 2 {
 			continue
 		}
 		n++
@@ -1877,10 +1877,20 @@ func ruleDecodersRefuseOnlyTheUnrepresentable(c *Check, p *Prog, rule string) {
 		}))
 		var refusing *Node
 		for _, x := range g.Exits {
-			if g.ExitClass(x) != rcA {
+			ret, isRet := x.In.(*ssa.Return)
+			if !isRet || len(ret.Results) == 0 {
 				continue
 			}
-			ret := x.In.(*ssa.Return)
+			// a package-level error value returned as it is (a sentinel) is an error return too
+			sentinel := false
+			if u, ok := spilledResult(ret, len(ret.Results)-1).(*ssa.UnOp); ok {
+				if gl, ok := u.X.(*ssa.Global); ok && gl.Pkg != nil && strings.HasPrefix(gl.Pkg.Pkg.Path(), rootPath) {
+					sentinel = true
+				}
+			}
+			if g.ExitClass(x) != rcA && !sentinel {
+				continue
+			}
 			rt := TermOf(spilledResult(ret, len(ret.Results)-1), x.Ctx)
 			if (rt.Op == "call" || rt.Op == "invoke" || rt.Op == "extract") && !rt.IsCall("fmt.Errorf") && !rt.IsCall("errors.New") && !rt.IsCall("errors.Join") {
 				continue
